@@ -171,7 +171,16 @@ def _mesh_states():
         m.mass_properties
         return m
 
-    return [("plain", plain), ("everything-read", read_all), ("face-colours+metadata+attributes", colored_faces), ("vertex-colours", colored_vertices), ("textured", textured), ("density+center_mass", overrides)]
+    def default_colours_edited():
+        # no colours assigned: the defaults live in the visual's cache; an in-place edit is
+        # only moved into the data store on the next read
+        m = trimesh.creation.box()
+        m.visual.face_colors
+        vc = m.visual.vertex_colors
+        vc[0] = [255, 0, 0, 255]
+        return m
+
+    return [("plain", plain), ("default-colours-read-then-vertex-colours-edited", default_colours_edited), ("everything-read", read_all), ("face-colours+metadata+attributes", colored_faces), ("vertex-colours", colored_vertices), ("textured", textured), ("density+center_mass", overrides)]
 
 
 def _other_states():
@@ -298,6 +307,8 @@ def abstract_state(o):
         st["visual.kind"] = v.kind
         if v.kind in ("face", "vertex"):
             st["visual.colors"] = arr(v.face_colors if v.kind == "face" else v.vertex_colors)
+        elif v.kind is None and hasattr(v, "vertex_colors"):
+            st["visual.colors"] = arr(v.vertex_colors)
         elif v.kind == "texture":
             st["visual.uv"] = arr(v.uv)
             img = getattr(v.material, "image", None)
